@@ -205,6 +205,22 @@ func diagWorker(req N) (resp N) {
 	// error must still name a position inside the text and quote that very line
 	tails := []string{"print(`select *\nfrom t`", "xq := [1, `a\nb`", "fq(`a\n\nb`,", "mq := {\"k\": `a\nb`", "yq := (`a\nb`", "print(`a\nb` +",
 		"zq := `a\nb`[", "if `a\nb` {", "print(`one\ntwo\nthree`, 1"}
+	// a syntax error INSIDE the braces of a template string, below and to the right of the start of the text: the
+	// reported position and the quoted line are those of the whole source, not of the fragment between the braces
+	broken := []string{"yq := '{ fq(1, 2 }'", "print('v={ 1 + }', 2)", "  zq := [1, 'a{ ) }b']", "mq := {\"k\": '{ [1, }'}", "print(1)\n\txq := '{ 1 2 }'"}
+	if n := int(req["n"].(float64)); n > 0 {
+		b := broken[rnd.Intn(len(broken))]
+		base := r.Source()
+		if !strings.HasSuffix(base, "\n") {
+			base += "\n"
+		}
+		if ev := diagnose(base + b); ev != nil {
+			events = append(events, ev)
+		}
+		if ev := diagnose(base + "\n" + b + "\nprint(2)\n"); ev != nil {
+			events = append(events, ev)
+		}
+	}
 	if n := int(req["n"].(float64)); n > 0 {
 		t := tails[rnd.Intn(len(tails))]
 		base := r.Source()
